@@ -236,13 +236,31 @@ def sh_cont_location(rng):
     return prog([assign("f", c(0)), assign("y", c(0)), assign("x", c(0))], body), {}, "continuous-location"
 
 
+def sh_many_values(rng):
+    """finite variables with 3..6 values (draws and arithmetic on them) in conditions and guards"""
+    k = rng.randint(2, 5)
+    d = ("draw", ("unif", 0, k)) if rng.random() < 0.5 else \
+        ("draw", ("cat", [c(F(1, k + 1))] * (k + 1)))
+    thr = rng.randint(1, k)
+    body = [("assign", "f", d)]
+    if rng.random() < 0.5:
+        body.append(assign("g", add(v("f"), c(1))))
+        cond = ("and", atom("f", rng.choice(["<", ">="]), thr), atom("g", rng.choice(["<=", ">", "=="]), thr))
+        init = [assign("f", c(0)), assign("g", c(1)), assign("x", c(0))]
+    else:
+        cond = ("atom", add(v("f"), v("f")), rng.choice(["<", ">=", "=="]), c(2 * thr))
+        init = [assign("f", c(0)), assign("x", c(0))]
+    body.append(("if", [(cond, [assign("x", add(v("x"), v("f")))])], [assign("x", add(v("x"), c(1)))] if rng.random() < 0.5 else None))
+    return prog(init, body), {}, "many-values"
+
+
 def sh_generic(rng):
     g = gen.G(rng, max_depth=rng.choice([1, 2]), allow_nested_reassign=rng.random() < 0.3, n_fin=rng.randint(1, 2), n_acc=rng.randint(1, 2))
     return g.program(), {}, "generic"
 
 
 IN_SHAPES = [sh_const_in_cond, sh_nested_reassign, sh_nonint, sh_goal_const, sh_simult_branch, sh_cat_branch,
-             sh_multi_assign, sh_guard, sh_linear_cycle, sh_nl_acyclic, sh_cont_location, sh_generic]
+             sh_multi_assign, sh_guard, sh_linear_cycle, sh_nl_acyclic, sh_cont_location, sh_many_values, sh_generic]
 
 
 # ---- out-of-class stream (a refusal is legitimate; a result must still be right) --------------
